@@ -141,6 +141,9 @@ func popOpts(g *G) *neat.Options {
 	if g.thorough && g.chance(0.2) {
 		o.PopSize = 40 + g.intn(80)
 	}
+	if !g.thorough && g.chance(0.08) {
+		o.PopSize = 40 + g.intn(40) // species / species lists well beyond the insertion-sort bound of sort.Sort (12)
+	}
 	o.DropOffAge = 1 + g.intn(20)
 	if g.chance(0.4) {
 		o.DropOffAge = 1 + g.intn(4) // stagnation penalties and delta coding within a short run
@@ -159,7 +162,7 @@ func popOpts(g *G) *neat.Options {
 	return o
 }
 
-var landscapes = []string{"distinct", "heavyTail", "dominant", "constant", "zero", "quantised", "nearTies"}
+var landscapes = []string{"distinct", "heavyTail", "dominant", "constant", "zero", "quantised", "nearTies", "plateaus"}
 
 func assignFitness(g *G, pop *genetics.Population, landscape string) {
 	for i, o := range pop.Organisms {
@@ -177,6 +180,17 @@ func assignFitness(g *G, pop *genetics.Population, landscape string) {
 		case "nearTies":
 			// pairwise distinct values that differ by a few ulps up to 1e-12 (a tolerance-based comparator is not the order)
 			o.Fitness = 2.5 + float64(i)*4.440892098500626e-16*float64(1+g.intn(2000))
+		case "plateaus":
+			// many EXACTLY equal values mixed with a few others: sort-key ties inside slices of more than 12 elements,
+			// where the order of equal elements is decided by pdqsort's pivoting (model: goSort)
+			switch c := g.intn(10); {
+			case c < 6:
+				o.Fitness = 2
+			case c < 8:
+				o.Fitness = float64(1 + g.intn(3))
+			default:
+				o.Fitness = 0.5 + g.f64()*3
+			}
 		case "constant":
 			o.Fitness = 3.5
 		case "zero":
